@@ -130,12 +130,13 @@ PROPERTIES = {
         "level": "fault_enumeration",
         "level_text": "enumeration of every structural certificate-mutation class x scheme x cache size x n=1..13 against the real Verify* functions, judged by a ground-truth oracle built "
                       "from a log of real signing operations (never by security/cert); completeness checked for honestly assembled certificates at every replica",
-        "level_note": "assumes cryptographic hardness (only structural forgeries); bootstrap convention for signature-free certificates; a panic during verification is a C10 event, not a verdict",
+        "level_note": "assumes cryptographic hardness (structural forgeries, plus the BLS rogue-key registration adversary: chosen public key and chosen proof-of-possession); bootstrap convention for signature-free certificates; a panic during verification is a C10 event, not a verdict",
         "technique": "fault enumeration over certificate mutations with a sign-log ground-truth oracle",
         "rule": "C02: certificate forgery campaign",
         "anchors": ["security/cert/auth.go", "security/crypto/", "security/cert/cache.go"],
         "parts": [
             part("C02.certs", shards={"quick": 16, "thorough": 16}, floor=1000),
+            part("C02.roguekey", shards={"quick": 10, "thorough": 16}, floor=100),
         ],
     },
     "C11": {
@@ -262,6 +263,7 @@ PROPERTIES = {
             part("C09.clique", shards={"quick": 16, "thorough": 16}, floor=200),
             part("C09.kauri", shards={"quick": 16, "thorough": 16}, floor=200),
             part("C09.async", race=True, shards={"quick": 8, "thorough": 16}, floor=30, timeout={"quick": 900, "thorough": 7200}),
+            part("C09.pipeline", race=True, shards={"quick": 8, "thorough": 16}, floor=30, timeout={"quick": 900, "thorough": 7200}),
         ],
     },
     "C10": {
